@@ -191,6 +191,8 @@ def main():
                              scr, "MutableRef._get_dependencies")
             except Exception as ex:      # noqa
                 rac.fail(key, f"C01 {key}: raised {type(ex).__name__}: {ex}", scr, "Manager.set_value")
+    from rac import c01_tasks
+    c01_tasks.run(rac)
     rac.section("chains", "chains v[i+1] = v[i] + 1 of length N defined consumer-before-producer, then v[0] assigned",
                 "N in 50, 1500, 6000", exhaustive=False)
     import xdeps
